@@ -53,12 +53,9 @@ Print Assumptions declare_var_through_block_rejected.
    hoisting of var/function through nested and sibling blocks, loops and catch clauses, closures that use names
    declared later, default values that mention earlier parameters, outer bindings or free names
    (MarkFuncArgs / NumArgUses), loop variables captured by closures of the body (MarkForStmt / NumForDecls).
-   For every such program without redeclaration error ([program_ok]), in which no name is bound both in an
-   auxiliary scope of ECMAScript (function-expression name, loop-head let) and in the main scope that shares
-   its parser Scope ([aux_distinct]; it follows from the side conditions of [core_x] and is a computable
-   check of the declarative resolution), and with fewer than 2^16 identifier occurrences: the model, run on
-   the parser's events for the program ([run_program] = prun on [EEnter true :: linearise p]), does not
-   reject, panic or run out of fuel, and
+   For every such program without redeclaration error ([program_ok]) and with fewer than 2^16 identifier
+   occurrences: the model, run on the parser's events for the program ([run_program] = prun on
+   [EEnter true :: linearise p]), does not reject, panic or run out of fuel, and
      (1) two occurrences are in the same Var after following Link iff the declarative resolver
          ([spec_resolve]) gives them the same declaration;
      (2) an occurrence bound nowhere is an undeclared variable (Decl = NoDecl) of the outermost scope's
@@ -75,8 +72,7 @@ Print Assumptions declare_var_through_block_rejected.
    Main.example_c_partition (classes), Main.example_x_hyps, Main.example_x_partition (loops, expression names). *)
 Theorem resolution_correct_partial :
   forall p : prog,
-    core_x p = true -> program_ok p = true -> aux_distinct (spec_resolve p) = true ->
-    Z.of_nat (occurrences p) < 65536 ->
+    core_x p = true -> program_ok p = true -> Z.of_nat (occurrences p) < 65536 ->
     exists ps,
       run_program p = Running ps /\
       let st := pst ps in
@@ -92,7 +88,7 @@ Theorem resolution_correct_partial :
          vdecl (vget st (nth i vs O)) <> NoDecl /\ vname (vget st (nth i vs O)) = x) /\
       (forall i, (i < length vs)%nat ->
          vuses (vget st (nth i vs O)) = Z.of_nat (count_occ Nat.eq_dec vs (nth i vs O))).
-Proof. exact resolution_correct_core. Qed.
+Proof. exact resolution_correct_x. Qed.
 Print Assumptions resolution_correct_partial.
 
 (* rename_alpha (on [core_d] = the fragment of resolution_correct_partial without loops and function-expression
